@@ -360,6 +360,8 @@ Ltac solve_val :=
   first
     [ reflexivity
     | solve [range_rw; reflexivity]
+    | solve [range_rw; rewrite land_bit_zero by lia;
+             match goal with |- context [Z.testbit ?a ?b] => destruct (Z.testbit a b) end; reflexivity]
     | solve [unfold wrap; lia]
     | solve [bit_norm; unfold wrap; case_cmp; cbn [Z.b2z negb andb orb]; lia]
     | solve [unfold wrap, Z.lnot; case_cmp; cbn [Z.b2z negb andb orb]; lia]
@@ -403,3 +405,251 @@ Ltac solve_fold_row :=
   first [ left; solve [in_list] | right; left; reflexivity | right; right; solve [solve_row_ok] | row_failed ].
 
 Ltac walk solve_one := repeat (apply Forall_cons; [solve_one|]); apply Forall_nil.
+
+(* rows of builtins outside the specified class satisfy row_ok by definition:
+   only the others have to be walked *)
+Definition specd (e : row) : bool :=
+  match sop_of (rname e) with Some _ => true | None => false end.
+
+Lemma meets_spec_filter bad tbl :
+  Forall (fun e => In (rname e) bad \/ row_ok e) (filter specd tbl) -> meets_spec bad tbl.
+Proof.
+  intro H. unfold meets_spec. rewrite Forall_forall in *. intros e He.
+  destruct (specd e) eqn:Hs.
+  - apply H. apply filter_In. split; assumption.
+  - right. apply row_ok_none. unfold specd in Hs. destruct (sop_of (rname e)); [discriminate|reflexivity].
+Qed.
+
+Lemma folds_to_spec_filter bad tbl :
+  Forall (fun e => In (rname e) bad \/ rexp e = Declined \/ row_ok e) (filter specd tbl) ->
+  folds_to_spec bad tbl.
+Proof.
+  intro H. unfold folds_to_spec. rewrite Forall_forall in *. intros e He.
+  destruct (specd e) eqn:Hs.
+  - apply H. apply filter_In. split; assumption.
+  - right. right. apply row_ok_none. unfold specd in Hs. destruct (sop_of (rname e)); [discriminate|reflexivity].
+Qed.
+
+Ltac walk_filtered lem solve_one :=
+  apply lem;
+  lazymatch goal with
+  | |- Forall ?P (filter specd ?t) =>
+      let l := eval vm_compute in (filter specd t) in
+      change (Forall P l); walk solve_one
+  end.
+
+(* ------------------------------------------------------------------ same-operation class *)
+
+(* the outermost conversion stores the value into the evaluator's own result
+   slot (AInt node data, union field, C temporary of the FOAM type) *)
+Definition core (e : cexp) : cexp :=
+  match strip e with
+  | Cast t a => a
+  | x => x
+  end.
+
+Fixpoint has_opaque (e : cexp) : bool :=
+  match e with
+  | Opaque _ => true
+  | Cast _ a | Un _ a => has_opaque a
+  | Bin _ a b | ACons a b => has_opaque a || has_opaque b
+  | Cond a b c => has_opaque a || has_opaque b || has_opaque c
+  | Call _ a => has_opaque a
+  | _ => false
+  end.
+
+Definition is_declined (e : cexp) : bool := match e with Declined => true | _ => false end.
+
+(* the interpreter has exactly one translated row for the builtin; every row of
+   the generated-C table and every folding row of the folder has the same core *)
+Definition sameop_check (cf fi gc : list row) (n : string) : bool :=
+  match lookup_all n fi with
+  | [r] =>
+      negb (has_opaque (rexp r))
+      && negb (Nat.eqb (List.length (lookup_all n gc)) 0)
+      && forallb (fun g => cexp_eqb (core (rexp g)) (core (rexp r))) (lookup_all n gc)
+      && forallb (fun c => is_declined (rexp c) || cexp_eqb (core (rexp c)) (core (rexp r)))
+                 (lookup_all n cf)
+  | _ => false
+  end.
+
+(* ------------------------------------------------------------------ coverage *)
+
+Definition memb (n : string) (l : list string) : bool := existsb (String.eqb n) l.
+
+Lemma memb_In n l : memb n l = true <-> In n l.
+Proof.
+  unfold memb. rewrite existsb_exists. split.
+  - intros [x [Hx He]]. apply String.eqb_eq in He. subst. assumption.
+  - intro H. exists n. split; [assumption|apply String.eqb_refl].
+Qed.
+
+Definition exactly_one (A B C : Prop) : Prop :=
+  (A /\ ~ B /\ ~ C) \/ (~ A /\ B /\ ~ C) \/ (~ A /\ ~ B /\ C).
+
+(* the three classes: specified and proved / same operation / excluded by name *)
+Definition in_spec_class (n : string) : Prop := sop_of n <> None.
+Definition in_sameop_class (n : string) : Prop := In n sameop_names.
+Definition in_excluded_class (n : string) : Prop := assoc n excluded <> None.
+
+Definition one_class (n : string) : bool :=
+  match sop_of n, memb n sameop_names, assoc n excluded with
+  | Some _, false, None => true
+  | None, true, None => true
+  | None, false, Some _ => true
+  | _, _, _ => false
+  end.
+
+Lemma one_class_spec n : one_class n = true ->
+  exactly_one (in_spec_class n) (in_sameop_class n) (in_excluded_class n).
+Proof.
+  unfold one_class, exactly_one, in_spec_class, in_sameop_class, in_excluded_class.
+  destruct (sop_of n); destruct (memb n sameop_names) eqn:Hm; destruct (assoc n excluded);
+    intro H; try discriminate.
+  - left. repeat split; try congruence. intro K. apply memb_In in K. congruence.
+  - right. left. repeat split; try congruence. apply memb_In. assumption.
+  - right. right. repeat split; try congruence. intro K. apply memb_In in K. congruence.
+Qed.
+
+Lemma Forall_of_forallb {A} (f : A -> bool) (P : A -> Prop) l :
+  (forall x, f x = true -> P x) -> forallb f l = true -> Forall P l.
+Proof.
+  intros H Hf. rewrite forallb_forall in Hf. apply Forall_forall. intros x Hx. apply H, Hf, Hx.
+Qed.
+
+Definition coverage (sig : list sigrow) (enum : list string) : Prop :=
+  Forall (fun s => exactly_one (in_spec_class (sname s)) (in_sameop_class (sname s))
+                               (in_excluded_class (sname s))) sig
+  /\ Forall (fun n => In n (map sname sig)) enum          (* every enumerator of foam.h has a table row *)
+  /\ List.length enum = List.length sig.
+
+Definition coverage_b (sig : list sigrow) (enum : list string) : bool :=
+  forallb (fun s => one_class (sname s)) sig
+  && forallb (fun n => memb n (map sname sig)) enum
+  && Nat.eqb (List.length enum) (List.length sig).
+
+Lemma coverage_of_b sig enum : coverage_b sig enum = true -> coverage sig enum.
+Proof.
+  unfold coverage_b, coverage. intro H.
+  apply andb_true_iff in H as [H H3]. apply andb_true_iff in H as [H1 H2].
+  repeat split.
+  - eapply Forall_of_forallb; [|exact H1]. intros s Hs. apply one_class_spec. exact Hs.
+  - eapply Forall_of_forallb; [|exact H2]. intros n Hn. apply memb_In. exact Hn.
+  - apply Nat.eqb_eq. exact H3.
+Qed.
+
+Fixpoint sig_lookup (n : string) (l : list sigrow) : option sigrow :=
+  match l with
+  | [] => None
+  | s :: t => if String.eqb (sname s) n then Some s else sig_lookup n t
+  end.
+
+(* a specified builtin is really there: it has the expected signature in
+   foamBValInfoTable and a row in both run-time tables (so the per-table
+   theorems do not hold vacuously for it) *)
+Definition present (sig : list sigrow) (fi gc : list row) (n : string) (o : sop) : Prop :=
+  (exists s, sig_lookup n sig = Some s /\ sargs s = fst (sop_sig o) /\ sret s = snd (sop_sig o))
+  /\ lookup n fi <> None /\ lookup n gc <> None.
+
+Definition present_b (sig : list sigrow) (fi gc : list row) (n : string) (o : sop) : bool :=
+  match sig_lookup n sig with
+  | Some s => ftys_eqb (sargs s) (fst (sop_sig o)) && fty_eqb (sret s) (snd (sop_sig o))
+  | None => false
+  end
+  && match lookup n fi with Some _ => true | None => false end
+  && match lookup n gc with Some _ => true | None => false end.
+
+Lemma present_of_b sig fi gc n o : present_b sig fi gc n o = true -> present sig fi gc n o.
+Proof.
+  unfold present_b, present. intro H.
+  apply andb_true_iff in H as [H H3]. apply andb_true_iff in H as [H1 H2].
+  destruct (sig_lookup n sig) as [s|]; [|discriminate].
+  apply andb_true_iff in H1 as [Ha Hr]. apply ftys_eqb_eq in Ha. apply fty_eqb_eq in Hr.
+  repeat split.
+  - exists s. auto.
+  - destruct (lookup n fi); [congruence|discriminate].
+  - destruct (lookup n gc); [congruence|discriminate].
+Qed.
+
+(* ------------------------------------------------------------------ consequences *)
+
+Lemma lookup_all_In n t r : In r (lookup_all n t) -> In r t /\ rname r = n.
+Proof.
+  induction t as [|x t IH]; cbn; [tauto|].
+  destruct (String.eqb (rname x) n) eqn:E.
+  - intros [->|H]; [split; [left; reflexivity|apply String.eqb_eq; assumption]|].
+    destruct (IH H). split; [right|]; assumption.
+  - intro H. destruct (IH H). split; [right|]; assumption.
+Qed.
+
+Lemma row_meets_use e o args :
+  row_ok e -> sop_of (rname e) = Some o -> typed (fst (sop_sig o)) args -> in_dom o args = true ->
+  sem args (rexp e) = Some (spec o args).
+Proof.
+  unfold row_ok. intros H Ho Ht Hd. rewrite Ho in H. destruct H as [Hs H].
+  apply H; [|assumption].
+  unfold row_sig_ok in Hs. apply andb_true_iff in Hs as [Hs _]. apply andb_true_iff in Hs as [Hs _].
+  apply ftys_eqb_eq in Hs. rewrite Hs. assumption.
+Qed.
+
+Section Agree.
+  Variables (badc badi badg : list string) (cf fi gc : list row).
+  Hypothesis Hc : folds_to_spec badc cf.
+  Hypothesis Hi : meets_spec badi fi.
+  Hypothesis Hg : meets_spec badg gc.
+
+  (* the lemma C02's Fold proof uses: a folding row of the folder computes the
+     specified value *)
+  Lemma cfold_row_spec e o args :
+    In e cf -> ~ In (rname e) badc -> rexp e <> Declined -> sop_of (rname e) = Some o ->
+    typed (fst (sop_sig o)) args -> in_dom o args = true ->
+    sem args (rexp e) = Some (spec o args).
+  Proof.
+    intros He Hb Hn Ho Ht Hd. unfold folds_to_spec in Hc. rewrite Forall_forall in Hc.
+    destruct (Hc e He) as [K|[K|K]]; [contradiction|contradiction|].
+    eapply row_meets_use; eassumption.
+  Qed.
+
+  Lemma rt_row_spec bad t e o args :
+    meets_spec bad t -> In e t -> ~ In (rname e) bad -> sop_of (rname e) = Some o ->
+    typed (fst (sop_sig o)) args -> in_dom o args = true ->
+    sem args (rexp e) = Some (spec o args).
+  Proof.
+    intros H He Hb Ho Ht Hd. unfold meets_spec in H. rewrite Forall_forall in H.
+    destruct (H e He) as [K|K]; [contradiction|].
+    eapply row_meets_use; eassumption.
+  Qed.
+
+  (* folder, interpreter and generated C agree with each other and with the
+     mathematical definition, on every builtin of the specified class, for ALL
+     well-typed operands in the domain *)
+  Lemma three_agree_gen n o ec ei eg args :
+    sop_of n = Some o ->
+    In ec cf -> rname ec = n -> rexp ec <> Declined -> ~ In n badc ->
+    In ei fi -> rname ei = n -> ~ In n badi ->
+    In eg gc -> rname eg = n -> ~ In n badg ->
+    typed (fst (sop_sig o)) args -> in_dom o args = true ->
+    sem args (rexp ec) = Some (spec o args) /\
+    sem args (rexp ei) = Some (spec o args) /\
+    sem args (rexp eg) = Some (spec o args).
+  Proof.
+    intros Ho Hec Hnc Hdc Hbc Hei Hni Hbi Heg Hng Hbg Ht Hd. subst n.
+    split; [|split].
+    - apply cfold_row_spec; auto.
+    - apply (rt_row_spec badi fi); auto; rewrite Hni; assumption.
+    - apply (rt_row_spec badg gc); auto; rewrite Hng; assumption.
+  Qed.
+
+  Lemma interp_c_agree_gen n o ei eg args :
+    sop_of n = Some o ->
+    In ei fi -> rname ei = n -> ~ In n badi ->
+    In eg gc -> rname eg = n -> ~ In n badg ->
+    typed (fst (sop_sig o)) args -> in_dom o args = true ->
+    sem args (rexp ei) = sem args (rexp eg).
+  Proof.
+    intros Ho Hei Hni Hbi Heg Hng Hbg Ht Hd.
+    transitivity (Some (spec o args)); [|symmetry].
+    - apply (rt_row_spec badi fi); auto; rewrite Hni; assumption.
+    - apply (rt_row_spec badg gc); auto; rewrite Hng; assumption.
+  Qed.
+End Agree.
